@@ -37,9 +37,12 @@ def run(ctx):
     cfg = CFG(tool.node)
     info = manifest_sites(ctx, tool, cfg)  # anchors: an AnalysisError here aborts the whole check (exit 2)
     ctx.rule(save_before_ack, tool, cfg, info)
+    ctx.rule(acknowledged_kept, tool, cfg, info)
     ctx.rule(durable_ack, tool, cfg, info)
     ctx.rule(filter_before_work, tool, cfg, info)
+    ctx.rule(cc.manifest_filter, "R-C10-manifest-exact", tool)
     ctx.rule(seed_identity, tool, cfg, info)
+    ctx.rule(cc.base_seed, "R-C10-base-seed", tool, prog.cls("command_line._FeatureProcessorDataset"))
     ctx.rule(reseed_first)
     ctx.rule(order, tool)
 
@@ -77,29 +80,109 @@ def manifest_sites(ctx, tool, cfg):
 
 
 # ------------------------------------------------------- R-C10-save-before-ack
+def _names_via_defs(rd, cfg, tool, at, expr, depth=0, seen=None):
+    """{name: frozenset of reaching definitions} for every name the value of ``expr`` (evaluated at cfg node ``at``)
+    is computed from, followed through plain assignments."""
+    out = {}
+    seen = seen if seen is not None else set()
+    for x in ast.walk(expr):
+        if isinstance(x, ast.Name) and isinstance(x.ctx, ast.Load):
+            defs = rd.reaching(at, x.id)
+            key = frozenset((d.node, d.kind) for d in defs)
+            out.setdefault(x.id, key)
+            if depth < 4:
+                for d in defs:
+                    if d.kind == "assign" and d.value is not None and (d.node, x.id) not in seen:
+                        seen.add((d.node, x.id))
+                        for k, v in _names_via_defs(rd, cfg, tool, d.node, d.value, depth + 1, seen).items():
+                            out.setdefault(k, v)
+    return out
+
+
 def save_before_ack(ctx, tool, cfg, info):
+    prog = ctx.prog
     R = "R-C10-save-before-ack"
     dom = cfg.dominators()
     rd = ReachingDefs(tool, cfg)
     ns = containing_node(cfg, tool, info["save"])
     loop_nodes = cfg.loops[cfg.node(info["loop"])]
+    # where does the feature file appear under its final name?  torch.save(feat, <final path>) itself, or the
+    # os.replace / os.rename that moves a scratch file into place (atomic-write idiom)
+    commits = []
+    if len(info["save"].args) > 1:
+        commits.append((ns, info["save"].args[1], info["save"]))
+    for c in astq.func_calls(tool):
+        q = prog.qualify(tool.module, c.func, tool) or ""
+        if q in ("os.replace", "os.rename", "shutil.move") and len(c.args) == 2:
+            nc = containing_node(cfg, tool, c)
+            if nc in loop_nodes and ns in dom.get(nc, ()):
+                commits.append((nc, c.args[1], c))
     for w in info["writes"]:
         nw = containing_node(cfg, tool, w)
         ctx.check(nw in loop_nodes and ns in loop_nodes, R, tool, w, "the acknowledgement is written inside the writer loop, per utterance",
                   "a manifest write is outside the per-utterance writer loop")
         ctx.check(ns in dom.get(nw, ()), R, tool, w, "torch.save dominates the manifest write",
                   "a manifest line can be written on a path that has not saved the feature file first")
-        # same utterance: the id printed and the id in the file name have the same reaching definitions
+        # same utterance: the id printed reaches the final file name with the same definitions
         names_w = [x.id for a in w.args for x in ast.walk(a) if isinstance(x, ast.Name)]
         ctx.need(names_w, R, "cannot find what is written to the manifest")
         for nm in names_w:
-            dw = {(d.node, d.kind) for d in rd.reaching(nw, nm)}
-            dsv = {(d.node, d.kind) for d in rd.reaching(ns, nm)}
-            used = any(isinstance(x, ast.Name) and x.id == nm for x in ast.walk(info["save"].args[1])) if len(info["save"].args) > 1 else False
-            ctx.check(used and dw == dsv and dw, R, tool, w, "the id acknowledged is the id whose file was just saved",
-                      "the manifest records `%s`, which is not (provably) the id used for the saved file" % nm)
-        # nothing between the save and the write can leave the iteration early while still having acknowledged
-    ctx.ok(R, tool.loc(info["save"]), "1 save site, %d manifest write site(s) analysed" % len(info["writes"]))
+            dw = frozenset((d.node, d.kind) for d in rd.reaching(nw, nm))
+            ok = False
+            for nc, dest, call in commits:
+                via = _names_via_defs(rd, cfg, tool, nc, dest)
+                if nm in via and via[nm] == dw and dw and nc in dom.get(nw, ()):
+                    ok = True
+            ctx.check(ok, R, tool, w, "the id acknowledged is the id in the name of the file that was just saved",
+                      "the manifest records `%s`, but no save / move into place that dominates the write names its file after that same id" % nm)
+    ctx.ok(R, tool.loc(info["save"]), "1 save site, %d commit site(s), %d manifest write site(s) analysed" % (len(commits), len(info["writes"])))
+
+
+# ------------------------------------------------------- R-C10-acknowledged-kept
+REMOVERS = {"os.remove", "os.unlink", "os.rmdir", "shutil.rmtree", "os.truncate"}
+
+
+def acknowledged_kept(ctx, tool, cfg, info):
+    """Once an utterance is acknowledged its file is never removed: no deletion of a path that may still be the
+    path of an acknowledged utterance (reaching definition of the path variable unchanged since the manifest write)."""
+    prog = ctx.prog
+    R = "R-C10-acknowledged-kept"
+    rd = ReachingDefs(tool, cfg)
+    nws = [containing_node(cfg, tool, w) for w in info["writes"]]
+    ns = containing_node(cfg, tool, info["save"])
+    save_names = _names_via_defs(rd, cfg, tool, ns, info["save"].args[1]) if len(info["save"].args) > 1 else {}
+    n = 0
+    for c in astq.func_calls(tool):
+        q = prog.qualify(tool.module, c.func, tool) or ""
+        is_method_rm = isinstance(c.func, ast.Attribute) and c.func.attr in ("unlink", "rmdir") and q not in REMOVERS
+        if q not in REMOVERS and not is_method_rm:
+            continue
+        n += 1
+        nc = containing_node(cfg, tool, c)
+        target = c.args[0] if c.args else (c.func.value if is_method_rm else None)
+        if target is None:
+            continue
+        tn = _names_via_defs(rd, cfg, tool, nc, target)
+        # does the removed path share a definition with the path that was saved and then acknowledged?
+        shared = [nm for nm, defs in tn.items() if nm in save_names and defs & save_names[nm] and nm not in ("options", "os")]
+        reach = any(nc in cfg.reachable(nw) for nw in nws)
+        if shared and reach:
+            ctx.bad(R, tool, c, "%s can delete the file of an utterance that is already acknowledged: `%s` still holds the path saved for the last "
+                    "acknowledged utterance when this statement is reached after the manifest write (e.g. an interrupt while the next "
+                    "utterance is computed); the manifest then lists an utterance whose file is gone and a resumed run never recreates it"
+                    % (astq.text(c)[:60], ", ".join(sorted(shared))), "acknowledged files are never removed")
+        else:
+            ctx.ok(R, tool.loc(c), "%s cannot name an acknowledged utterance's file" % astq.text(c)[:60])
+    ctx.ok(R, tool.loc(), "%d file-removal call(s) examined" % n)
+    # no randomly named files in the output directory (a hard kill would leave them behind for good)
+    for c in astq.func_calls(tool):
+        q = prog.qualify(tool.module, c.func, tool) or ""
+        if q.startswith("tempfile."):
+            d = astq.kw(c, "dir")
+            if d is not None and any(isinstance(x, ast.Attribute) and x.attr == "dir" and astq.is_name(x.value, "options") for x in ast.walk(d)):
+                ctx.bad(R, tool, c, "%s creates a randomly named file inside the output directory: a hard kill before it is moved into place or removed "
+                        "leaves it there for good, so the directory after a resume is not identical to that of an uninterrupted run" % astq.text(c)[:50],
+                        "only files named after utterances are created in the output directory")
 
 
 # ---------------------------------------------------------- R-C10-durable-ack
@@ -167,7 +250,13 @@ def filter_before_work(ctx, tool, cfg, info):
             for x in header_walk(st):
                 if isinstance(x, ast.comprehension) and _is_manifest(x.iter):
                     reads.append(n)
-    ctx.need(reads, R, "the manifest is never read (no iteration over options.manifest)")
+                elif (isinstance(x, ast.Call) and isinstance(x.func, ast.Attribute) and x.func.attr in ("read", "readlines", "readline")
+                      and _is_manifest(x.func.value)):
+                    reads.append(n)
+                elif isinstance(x, ast.Call) and isinstance(x.func, ast.Name) and x.func.id in ("set", "list", "tuple", "frozenset", "map") and any(_is_manifest(a) for a in x.args):
+                    reads.append(n)
+    reads = sorted(set(reads))
+    ctx.need(reads, R, "the manifest is never read (no iteration over / read of options.manifest)")
     pm = astq.parents(tool)
     for n in reads:
         st = cfg.stmt[n]
@@ -284,6 +373,10 @@ class Taint:
             for t in st.targets:
                 tgts.extend(astq.flatten_targets(t))
             d, m = self._dt(st.value, D), self._mt(st.value, M)
+            for x in ast.walk(st.value):
+                # a comprehension filtered on manifest data yields a manifest-dependent membership
+                if isinstance(x, ast.comprehension) and any(self._dt(c, D) or self._mt(c, M) for c in x.ifs):
+                    m = True
             for t in tgts:
                 if isinstance(t, ast.Name):
                     (D.add if d else D.discard)(t.id)
